@@ -110,7 +110,9 @@ fn lengths() -> Vec<usize> {
     let mut v: Vec<usize> = (0..=40).collect();
     v.extend([
         63, 64, 65, 127, 128, 129, 255, 256, 257, 32767, 32768, 65535, 65536,
-        (1usize << 31) - 1, 1usize << 31, 1usize << 32,
+        (1usize << 31) - 1, 1usize << 31, 1usize << 32, (1usize << 32) + 1,
+        // axes longer than the signed pointer range (a surface of zero-sized items can be that long)
+        isize::MAX as usize - 1, isize::MAX as usize, isize::MAX as usize + 1, usize::MAX - 1, usize::MAX,
     ]);
     v
 }
